@@ -140,7 +140,7 @@ def run(ctx):
     h = ctx.compile_harness("c08_widen.cc")
     wd = ctx.workdir()
     quick = ctx.tier == "quick"
-    nhist = 640 if quick else 16000
+    nhist = 480 if quick else 16000
     seed, first, last = ctx.seed, 0, nhist
     if ctx.replay:
         rp = json.load(open(ctx.replay))
